@@ -1,4 +1,3 @@
-(* WIP *)
 (* Proofs for C34 over the write-path model. *)
 From MV Require Import Base.Val Session.Pkt IO.WriteBuf.
 From Coq Require Import Lia ZifyBool ZifyN ZifyNat.
@@ -205,12 +204,13 @@ Proof.
     + destruct (outbuf s) as [|p b] eqn:B; cbn [is_nil].
       * destruct (thr <=? e_size e) eqn:T; [apply Hd|].
         split; [|exact Hc]. cbn. rewrite B. cbn. replace (e_size e <? thr) with true by lia. reflexivity.
-      * destruct (buflen (outbuf (buffer s (e_id e) (e_size e))) <? thr) eqn:L; [|rewrite <- B; apply Hfl].
-        split; [|exact Hc]. cbn [buffer outbuf] in *. rewrite map_app, below_app. rewrite B in Hb. rewrite Hb. cbn [andb map].
-        rewrite buflen_sum, map_app in L. cbn in L. rewrite fold_right_app in L. cbn in L.
+      * destruct (buflen (outbuf (buffer s (e_id e) (e_size e))) <? thr) eqn:L; [|apply Hfl].
         assert (G : forall l a, fold_right N.add a l = fold_right N.add 0 l + a).
         { induction l as [|y r IH]; intros a; cbn; [lia|rewrite IH; lia]. }
-        rewrite G in L. lia.
+        split; [|exact Hc]. cbn [buffer outbuf] in *.
+        rewrite buflen_sum in L. rewrite B in *. rewrite map_app in *. cbn [map snd] in *.
+        rewrite below_app, Hb. cbn [andb].
+        rewrite fold_right_app in L. cbn [fold_right] in L. rewrite G in L. cbn [fold_right]. lia.
 Qed.
 
 Theorem chunks_shape (thr : N) (evs : list wev) :
